@@ -6,8 +6,10 @@ E-HIST (composition schedules + interleavings) on the real PolyphaseFilterbank:
 * case_window  : every (M, P, window) -- stored window == documented firwin design == hand-written windowed sinc.
 * case_stream  : every (M, P, window, input kind, stream length c) -- one-shot call against the long-double
                  FIR+DFT definition; ALL 2^(c-1) compositions of the stream into chunks driven through
-                 channelize(cache=True) on a fresh object; for every composition a cache=False call on foreign
-                 data inserted at every position, and _reset_cache() inserted at every position.
+                 channelize(cache=True) on a fresh object (chunks = slices of the stream, and again with every chunk
+                 passed through ONE reused caller buffer); for every composition a cache=False call on foreign
+                 data, estimate_channelized_stds() (the library's own mid-stream cache=False user) and
+                 _reset_cache() inserted at every position.
 * case_pair    : two filterbank objects (same / different (M, P), different windows and data), every pair of
                  compositions, ALL interleavings of the two chunk sequences, second object built up-front or lazily.
 * case_algebra : linearity on three (a, b) pairs, complex == channelize(Re) + i*channelize(Im),
@@ -335,7 +337,7 @@ def case_stream(c):
         outcomes.add('%d|%s' % (M, ','.join(sig)))
         return ok
 
-    # ---- all compositions; cache=False and reset inserted at every position
+    # ---- all compositions; buffer reuse; cache=False / stds estimate / reset inserted at every position
     n_comp = 0
     for comp in engine.compositions(cw):
         n_comp += 1
